@@ -244,6 +244,10 @@ func (vt *Model) cnl(ps int) {
 	if ps == 0 {
 		ps = 1
 	}
+	// Once every line has scrolled out nothing changes anymore
+	if ps > vt.height() {
+		ps = vt.height()
+	}
 	for i := 0; i < ps; i += 1 {
 		vt.nel()
 	}
@@ -255,6 +259,10 @@ func (vt *Model) cpl(ps int) {
 	vt.lastCol = false
 	if ps == 0 {
 		ps = 1
+	}
+	// Once every line has scrolled out nothing changes anymore
+	if ps > vt.height() {
+		ps = vt.height()
 	}
 	for i := 0; i < ps; i += 1 {
 		vt.ri()
